@@ -58,6 +58,7 @@ type ardSim struct {
 	ackThenFault     bool // witness of the known finding: unrelated BUFFER report, then CRCFAULT
 	staleZero        bool // before acknowledging a second or later write, report BUFFER 0 for the previous one
 	faultNext        int  // answer the next n data frames with CRCFAULT
+	earlyDial        []byte // ARQ payload delivered between CONNECTED and the MYCALL reply of a dial
 	refuseDial       bool
 	buffered         int
 	done             chan struct{}
@@ -129,6 +130,15 @@ func (s *ardSim) onCommand(line string) {
 	case cmd == "VERSION":
 		s.say("VERSION ardopsim_1.0")
 	case cmd == "MYCALL" && len(parts) == 1:
+		s.mu.Lock()
+		early := s.earlyDial
+		s.earlyDial = nil
+		s.mu.Unlock()
+		if early != nil {
+			// the remote station's first frame comes in as soon as the link is up, before the
+			// answer to the host's MYCALL query
+			s.arq(early)
+		}
 		s.say("MYCALL " + s.mycall)
 	case len(parts) == 2:
 		if cmd == "MYCALL" {
@@ -302,7 +312,7 @@ func ardDecodeImpl(ftype byte, isTCP bool, chunks [][]byte) string {
 
 func runC14(ctx *Ctx) error {
 	r, res := ctx.Rng, ctx.Res
-	res.Rule = "(1) correspondence: crc16Sum on random byte strings vs the model and vs an independent register implementation; writeCtrlFrame in both modes; readFrameOfType driven as decodeTNCStream drives it over random streams (serial: command and data frames mixed; TCP: one kind), split arbitrarily, with truncations, flipped bytes, data frames of 0..2 bytes, of 65533..65535 bytes and unknown type bytes, vs the model's decoder; parseCtrlMsg on known commands with and without parameters, 'now ' echoes, case variations, lists, numbers incl. out of range, and random printable lines. (2) end-to-end against a scripted ARDOP TNC in serial mode (one in-memory link delivering at most 1..64 bytes per read) and, where loopback TCP is available, in TCP mode (two sockets): Open (INITIALIZE..GRIDSQUARE), Dial or Listen/Accept, ARQ frames of 0..65532 bytes interleaved with PTT, BUFFER, BUSY, IDF/FEC frames and unknown lines, Read with random buffer sizes incl. a slow reader, Write incl. > 65535 bytes and CRCFAULT injections (1, 2 and 3 faults; also while another subscriber of the TNC's status messages (TNC.ListenEnabled) has stopped reading them), Flush that must not return before BUFFER 0, Close, TNC.Close. Oracles from the property text: Read = concatenation of ARQ payloads in order; the TNC keeps frames whose payloads concatenate to the bytes Write reported as accepted, each frame with correct prefix/length/CRC (checked by the simulator's own CRC code); retransmissions are byte-identical; PTT calls equal the PTT lines in order; malformed input gives errors, not crashes. The wire frames and the PTT/queue outcome are also compared with the model. Non-trivial: scenario moving data in both directions with link pieces smaller than a frame; distinct by scenario parameters."
+	res.Rule = "(1) correspondence: crc16Sum on random byte strings vs the model and vs an independent register implementation; writeCtrlFrame in both modes; readFrameOfType driven as decodeTNCStream drives it over random streams (serial: command and data frames mixed; TCP: one kind), split arbitrarily, with truncations, flipped bytes, data frames of 0..2 bytes, of 65533..65535 bytes and unknown type bytes, vs the model's decoder; parseCtrlMsg on known commands with and without parameters, 'now ' echoes, case variations, lists, numbers incl. out of range, and random printable lines. (2) end-to-end against a scripted ARDOP TNC in serial mode (one in-memory link delivering at most 1..64 bytes per read) and, where loopback TCP is available, in TCP mode (two sockets): Open (INITIALIZE..GRIDSQUARE), Dial or Listen/Accept (with a first ARQ frame arriving before Accept is called, or between CONNECTED and the end of Dial), ARQ frames of 0..65532 bytes interleaved with PTT, BUFFER, BUSY, IDF/FEC frames and unknown lines, Read with random buffer sizes incl. a slow reader, Write incl. > 65535 bytes and CRCFAULT injections (1, 2 and 3 faults; also while another subscriber of the TNC's status messages (TNC.ListenEnabled) has stopped reading them), Flush that must not return before BUFFER 0, Close, TNC.Close. Oracles from the property text: Read = concatenation of ARQ payloads in order; the TNC keeps frames whose payloads concatenate to the bytes Write reported as accepted, each frame with correct prefix/length/CRC (checked by the simulator's own CRC code); retransmissions are byte-identical; PTT calls equal the PTT lines in order; malformed input gives errors, not crashes. The wire frames and the PTT/queue outcome are also compared with the model. Non-trivial: scenario moving data in both directions with link pieces smaller than a frame; distinct by scenario parameters."
 	log.SetOutput(io.Discard)
 
 	var lines, impl, sites []string
@@ -761,7 +771,33 @@ func (sc c14Scenario) run(r Rng) (fails []Failure, extra [][3]string) {
 				sc.inbound = sc.inbound[1:]
 			}
 		} else {
+			earlyDial := sc.id%2 == 0 && sc.fault == "" && len(sc.inbound) > 0 && len(sc.inbound[0]) > 0
+			if earlyDial {
+				sim.mu.Lock()
+				sim.earlyDial = sc.inbound[0]
+				sim.mu.Unlock()
+			}
 			c, err := tnc.Dial(sc.peer)
+			if earlyDial && err == nil {
+				// the frame that arrived while Dial was still finishing must be the first thing read
+				var got []byte
+				c.SetReadDeadline(time.Now().Add(5 * time.Second))
+				for len(got) < len(sc.inbound[0]) {
+					buf := make([]byte, 4096)
+					n, rerr := c.Read(buf)
+					got = append(got, buf[:n]...)
+					if rerr != nil {
+						fail("read-stream", "frame sent between CONNECTED and the end of Dial: Read: %v after %d of %d bytes", rerr, len(got), len(sc.inbound[0]))
+						return
+					}
+				}
+				c.SetReadDeadline(time.Time{})
+				if !bytes.Equal(got, sc.inbound[0]) {
+					fail("read-stream", "frame sent between CONNECTED and the end of Dial: Read yielded %s, sent %s", trunc(hexs(got)), trunc(hexs(sc.inbound[0])))
+					return
+				}
+				sc.inbound = sc.inbound[1:]
+			}
 			if sc.fault == "refuse-dial" {
 				if err == nil {
 					fail("dial", "Dial succeeded although the TNC went back to DISC")
